@@ -37,7 +37,8 @@ def urls_from_text(string):
         stop = len(url) - 1
         i = stop
 
-        while i != 0 and url[i] in IRRELEVANT_PUNCTUATION and url[i] != last_punct:
+        # NOTE: the markdown target can be empty, hence `i > 0`
+        while i > 0 and url[i] in IRRELEVANT_PUNCTUATION and url[i] != last_punct:
             last_punct = url[i]
             i -= 1
 
